@@ -27,9 +27,9 @@ def gen_format(f):
     T = f['type']
     o.append('/* generated from spec/wire.spec - do not edit */')
     o.append('#include <stddef.h>\n#include <stdint.h>')
+    o.append('#include "vp_bind.h"   /* first: a header that leaks a #pragma must not change the monitor\'s own structs */')
     o.append('#include "%s"' % f['header'])
     o.append(COMPAT.get(f['id'], ''))
-    o.append('#include "vp_bind.h"\n')
     fid = f['id']
     for x in f['fields']:
         if x['dget']:
